@@ -283,6 +283,17 @@ func clearNorm(b []byte) string {
 	return strings.TrimSpace(strings.Join(lines, "\n"))
 }
 
+// checkDetached verifies a detached OpenPGP signature in either encoding, ASCII-armored or binary packets: the
+// property asks for a detached signature, not for an encoding (gpg --verify and debsig-verify read both).
+func checkDetached(ring openpgp.EntityList, signed, sig []byte) error {
+	if bytes.HasPrefix(bytes.TrimSpace(sig), []byte("-----BEGIN")) {
+		_, err := openpgp.CheckArmoredDetachedSignature(ring, bytes.NewReader(signed), bytes.NewReader(sig), nil)
+		return err
+	}
+	_, err := openpgp.CheckDetachedSignature(ring, bytes.NewReader(signed), bytes.NewReader(sig), nil)
+	return err
+}
+
 func issuerOf(sig []byte) (uint64, error) {
 	r := io.Reader(bytes.NewReader(sig))
 	if bytes.HasPrefix(bytes.TrimSpace(sig), []byte("-----BEGIN")) {
@@ -495,7 +506,7 @@ func checkSign(sc *SignCase, useGPG bool) []Violation {
 			if d.SigMember.Name != wantName {
 				vs.add("C10.deb.signature-member-name", f, "signature member %q, expected %q", d.SigMember.Name, wantName)
 			}
-			if _, err := openpgp.CheckArmoredDetachedSignature(pubRing(key), bytes.NewReader(signed), bytes.NewReader(d.SigMember.Data), nil); err != nil {
+			if err := checkDetached(pubRing(key), signed, d.SigMember.Data); err != nil {
 				vs.add("C10.deb.signature-invalid", f, "%s does not verify over debian-binary+control+data as stored: %v", d.SigMember.Name, err)
 			}
 			sc.checkIssuer(f, d.SigMember.Data, &vs)
